@@ -116,6 +116,11 @@ def write_replay(root, prop, unit, result, fresh, tu, wd):
     try:
         if unit.back_end == "BV":
             found = _replay_bv(rec, unit, result, fresh, tu, wd)
+        elif unit.back_end == "RING":
+            cx = result.get("counterexample")
+            if cx:
+                rec["counterexample"] = {k: (repr(v)[:600] if k in ("code_poly", "spec_poly", "sym_values") else v) for k, v in cx.items()}
+                found = replay_ring(rec, unit, result, tu, wd)
         else:
             cx = result.get("counterexample")
             if cx:
@@ -184,4 +189,144 @@ def _replay_bv(rec, unit, result, fresh, tu, wd):
     model_ne_native = [x for x in r2["failed"] if len(x) > 2 and "model == native" in x[2]]
     same = [x for x in r2["failed"] if x[0].split(".")[-2:] == fresh[0][0].split(".")[-2:] or x[2] == (fresh[0][2] if len(fresh[0]) > 2 else None)]
     rec["confirmed_on_real_code"] = bool(same) and not model_ne_native
+    return rec["confirmed_on_real_code"]
+
+
+# ---------------------------------------------------------------------------
+# RING counterexamples: evaluate in the real tower, run the real function natively
+def eval_ring(p, env):
+    """evaluate a Poly with tower elements / ints for the variables (Python operators)"""
+    total = 0
+    for m, c in p.t.items():
+        x = c
+        for (v, e) in m:
+            b = env[v]
+            for _ in range(e):
+                x = b * x if not isinstance(x, int) or True else x
+        total = x + total
+    return total
+
+
+def ring_native(tu, wd, f, pattern, fq_inputs, scalars, tag):
+    """fq_inputs: {param: {fq-level path: int}} ; returns {path: int} after the call"""
+    from symx import Interp, Leaf, Cell
+    from ringdom import RingDomain, leaves_of, param_names
+    I = Interp(tu, RingDomain({"Fq", "BigInt<384>", "BigInt<256>"}))
+    I.scopes = [f.record.qname] if f.record is not None else []
+    names = param_names(f)
+    lines = [unity_source(), "#include <stdio.h>", "#include <string.h>",
+             "using namespace embedded_pairing; using namespace embedded_pairing::core; using namespace embedded_pairing::bls12_381;",
+             "static void setfq(Fq& x, unsigned long long w0, unsigned long long w1, unsigned long long w2, unsigned long long w3, unsigned long long w4, unsigned long long w5){ unsigned long long w[6]={w0,w1,w2,w3,w4,w5}; BigInt<384> b; memcpy(&b, w, 48); x.set(b); }",
+             "static void outfq(const char* n, const Fq& x){ BigInt<384> b; x.get(b); unsigned long long w[6]; memcpy(w, &b, 48); printf(\"%s %llu %llu %llu %llu %llu %llu\\n\", n, w[0],w[1],w[2],w[3],w[4],w[5]); }",
+             "int main(){"]
+    types = {}
+    for nm in names:
+        if nm == "this":
+            types[nm] = f.record.qname
+        else:
+            i = names.index(nm) - (1 if names[0] == "this" else 0)
+            types[nm] = re.sub(r"(&|\b__restrict\b|\bconst\b)", "", norm_type(tu.canon(f.param_type(i), I.scopes))).strip()
+    outs = []
+    for nm in names:
+        if nm in scalars:
+            lines.append("  auto %s = %s;" % (nm, scalars[nm]))
+            continue
+        if nm in pattern:
+            continue
+        lines.append("  static %s obj_%s; memset(&obj_%s, 0, sizeof(obj_%s));" % (types[nm], nm, nm, nm))
+        o = I.new_object(types[nm])
+        for p, lf in leaves_of(o, nm, {}).items():
+            acc = "obj_" + p
+            if isinstance(lf, Leaf) and lf.type == "Fq":
+                v = fq_inputs.get(p, 0)
+                lines.append("  setfq(%s, %s);" % (acc, ", ".join("%dULL" % ((v >> (64 * k)) & (2**64 - 1)) for k in range(6))))
+                outs.append((p, acc))
+            elif isinstance(lf, Cell):
+                lines.append("  %s = %d;" % (acc, fq_inputs.get(p, 0)))
+    ref = lambda nm: "obj_" + pattern.get(nm, nm)
+    args = ", ".join(ref(nm) if nm not in scalars else nm for nm in names if nm != "this")
+    if f.is_method and not f.is_static:
+        lines.append("  %s.%s(%s);" % (ref("this"), f.name, args))
+    elif f.is_method:
+        lines.append("  %s::%s(%s);" % (f.record.qname, f.name, args))
+    else:
+        lines.append("  %s(%s);" % (f.name, args))
+    for p, acc in outs:
+        lines.append("  outfq(\"%s\", %s);" % (p, acc))
+    lines.append("  return 0; }")
+    return run_native("\n".join(lines), wd, tag)
+
+
+def replay_ring(rec, unit, result, tu, wd):
+    import random
+    import tower_ref as TR
+    from poly import Poly
+    from ringdom import RING_LEVEL
+    cx = result.get("counterexample")
+    if not cx or not cx.get("code_poly"):
+        return False
+    code, spec = cx["code_poly"], cx["spec_poly"]
+    d = code - spec
+    f = tu.func(unit.target)
+    leaf_level = cx.get("leaf_level", 1)
+    rnd = random.Random(7)
+    sym_values = cx.get("sym_values", {})
+    for attempt in range(40):
+        env = {}
+        for v in d.vars() + [x for x in code.vars() + spec.vars() if x not in d.vars()]:
+            if v == "xi":
+                env[v] = TR.XI
+            elif v == "v":
+                env[v] = TR.V
+            elif v in sym_values:
+                env[v] = sym_values[v]
+            elif "#" in v:
+                env = None       # uninterpreted symbol: cannot instantiate natively
+                break
+            else:
+                lvl = cx["var_levels"].get(v, leaf_level)
+                n = {1: 1, 2: 2, 6: 6, 12: 12}[lvl]
+                env[v] = TR.from_flat(lvl, [rnd.randrange(0, 4 + attempt) for _ in range(n)])
+        if env is None:
+            return False
+        dv = eval_ring(d, env)
+        nz = (dv != 0) if isinstance(dv, int) else (not dv.is_zero())
+        if nz:
+            break
+    else:
+        return False
+    # Fq-level inputs
+    fq_inputs = {}
+    for v, val in env.items():
+        if v in ("xi", "v") or v in sym_values:
+            continue
+        flat = val.flat() if hasattr(val, "flat") else (val,)
+        if len(flat) == 1:
+            fq_inputs[v] = flat[0]
+        else:
+            comps = {2: ["c0", "c1"], 6: ["c0.c0", "c0.c1", "c1.c0", "c1.c1", "c2.c0", "c2.c1"],
+                     12: ["c0.c0.c0", "c0.c0.c1", "c0.c1.c0", "c0.c1.c1", "c0.c2.c0", "c0.c2.c1", "c1.c0.c0", "c1.c0.c1", "c1.c1.c0", "c1.c1.c1", "c1.c2.c0", "c1.c2.c1"]}[len(flat)]
+            for cmp_, x in zip(comps, flat):
+                fq_inputs[v + "." + cmp_] = x
+    pattern = cx.get("pattern", {})
+    # inputs named after an aliased parameter live in the representative object
+    native, err = ring_native(tu, wd, f, pattern, fq_inputs, cx.get("scalars", {}), unit.name() + "_native")
+    rec["native_driver_error"] = err
+    if native is None:
+        return False
+    want_spec, want_code = eval_ring(spec, env), eval_ring(code, env)
+    leaf = cx["leaf_path"]
+    def flat(x):
+        return list(x.flat()) if hasattr(x, "flat") else [x % TR.Q]
+    got = []
+    root = leaf
+    rootp = root.split(".")[0]
+    real_root = pattern.get(rootp, rootp) + root[len(rootp):]
+    keys = [k for k in native if k == real_root or k.startswith(real_root + ".")]
+    got = [sum(w << (64 * i) for i, w in enumerate(native[k])) for k in keys]
+    rec["native_leaf"] = {k: hex(sum(w << (64 * i) for i, w in enumerate(native[k]))) for k in keys}
+    rec["spec_value"] = [hex(x) for x in flat(want_spec)]
+    rec["model_value"] = [hex(x) for x in flat(want_code)]
+    rec["inputs_fq"] = {k: hex(v) for k, v in fq_inputs.items()}
+    rec["confirmed_on_real_code"] = (got == flat(want_code)) and (got != flat(want_spec))
     return rec["confirmed_on_real_code"]
